@@ -180,6 +180,11 @@ def replay(path, oracle, model_fn='showRun', imports=IMPORTS):
         for i, (op, o) in enumerate(zip(prog['ops'], obs)):
             print(i, json.dumps(op)[:200], '->', 'ok' if o['ok'] else o['exc'] + ': ' + o.get('msg', ''))
         fails = oracle(prog, obs, None)
+        ref = r.get('decision_under_shipped_configuration')
+        if ref is not None:
+            last = obs[len(prog['ops']) - 1]
+            if last['ok'] != ref['ok'] or (not last['ok'] and last['exc'] != ref.get('exc')):
+                fails = [(len(prog['ops']) - 1, f"decided {'ok' if ref['ok'] else ref.get('exc')} under the shipped configuration, {'ok' if last['ok'] else last['exc']} under this one")] + list(fails)
         for f in fails[:5]:
             print('PROPERTY FAILS at op', f[0], ':', f[1])
         print('property', 'FAILS' if fails else 'HOLDS', 'on this input under this configuration')
@@ -324,12 +329,13 @@ def variants(chk, gens, oracle, tag, limit=12):
     (the substances are made by the library's factories; the oracle's densities are the configured ones)"""
     n = 0
     for name, overrides, dens in VARIANTS:
-        progs = []
+        progs, refobs = [], []
         storage = 'volume_storage_unit' in overrides or 'moles_storage_unit' in overrides
         for g in gens[:limit]:
             if storage and getattr(g, 'scale', 1) < 1e-3:
                 continue      # nanomole-scale histories have two significant digits left under a coarser storage unit
             prog = json.loads(json.dumps(g.prog() if hasattr(g, 'prog') else g))
+            refobs.append(getattr(g, 'obs', None))
             if 'volume_storage_unit' in overrides or 'moles_storage_unit' in overrides:
                 prog['tol_k'] = 1000.0
             if dens:
@@ -346,8 +352,24 @@ def variants(chk, gens, oracle, tag, limit=12):
         except Exception as e:  # noqa
             chk.violation(f"histories could not be run under configuration '{name}': {e}", {'relation': 'configuration variant ' + name}, found_input=False)
             continue
-        for prog, obs in zip(progs, allobs):
+        for gi, (prog, obs) in enumerate(zip(progs, allobs)):
             n += len(prog['ops'])
+            # display and storage units change no decision: what was accepted / refused (and with which class) when the history was
+            # generated under the shipped configuration is accepted / refused now (requests are generated 3 % clear of every boundary)
+            ref = refobs[gi]
+            if not dens and ref is not None:
+                bad = None
+                for i, (a, b) in enumerate(zip(ref, obs)):
+                    if a['ok'] != b['ok'] or (not a['ok'] and a['exc'] != b['exc']):
+                        bad = (i, f"op {i} ({prog['ops'][i]['op']} {json.dumps(prog['ops'][i].get('q', prog['ops'][i].get('c', '')))[:80]}) is "
+                                  f"{'accepted' if a['ok'] else 'refused (' + a['exc'] + ')'} under the shipped configuration and "
+                                  f"{'accepted' if b['ok'] else 'refused (' + b['exc'] + ': ' + str(b.get('msg', ''))[:60] + ')'} here")
+                        break
+                if bad:
+                    chk.violation(f"under configuration '{name}': " + bad[1],
+                                  {'program': dict(prog, ops=prog['ops'][:bad[0] + 1]), 'configuration': {k: str(v) for k, v in overrides.items()},
+                                   'decision_under_shipped_configuration': {k: v for k, v in ref[bad[0]].items() if k != 'out'}, 'failures': [list(bad)]})
+                    break
             try:
                 fails = oracle(prog, obs, None)
             except Exception:  # noqa
